@@ -141,6 +141,14 @@ func mergeToWriter(segments []*Segment, drops []*roaring.Bitmap,
 		}
 	} else {
 		dictLocs = make([]uint64, len(fieldsInv))
+
+		// nothing survives: still write the (empty) stored section that
+		// the loader expects in front of the stored index
+		docChunkCoder := newChunkedDocumentCoder(uint64(defaultDocumentChunkSize), cr)
+		if err = docChunkCoder.Write(); err != nil {
+			return nil, nil, err
+		}
+		storedIndexOffset = uint64(cr.Count())
 	}
 
 	var fieldsIndexOffset uint64
